@@ -4,7 +4,7 @@
 From Coq Require Import ZArith List Bool.
 From AV Require Import Lib.Bytes Lib.CodecX Gen.H264Const Gen.VpxConst.
 From AV Require Model.H264 Model.Vp8.
-From AV Require Import Proof.H264PBase Proof.H264PFu Proof.H264PStap Proof.Vp8P.
+From AV Require Import Proof.H264PBase Proof.H264PFu Proof.H264PStap Proof.H264PSplit Proof.Vp8P.
 Import ListNotations.
 Local Open Scope Z_scope.
 
@@ -81,6 +81,16 @@ Proof.
 Qed.
 Print Assumptions C16_h264_lossless.
 
+(* T+  _split_bitstream inverts joining with 3- or 4-byte start codes:
+   join units = concatenation of (00 00 00 01 | 00 00 01) ++ unit;  clean_unit n = n contains no
+   00 00 01, is non-empty and does not end in 00 (what emulation prevention guarantees).
+   The loop's fuel S (length buf) suffices and the buf[i - 1] access never fails. *)
+Theorem C16_split : forall units,
+  Forall clean_unit (map snd units) ->
+  H264.split_bitstream (join units) = Ok (map snd units).
+Proof. exact split_join. Qed.
+Print Assumptions C16_split.
+
 (* non-vacuity *)
 Example valid_nal_ex : valid_nal [101; 1; 2; 3].
 Proof. repeat split; [repeat constructor; cbv; intuition congruence | cbv; congruence | ].
@@ -88,6 +98,10 @@ Proof. repeat split; [repeat constructor; cbv; intuition congruence | cbv; congr
 Example h264_packetize_ex :
   H264.packetize [[101; 1; 2; 3]; [65; 9]] = Ok [[120; 0; 4; 101; 1; 2; 3; 0; 2; 65; 9]].
 Proof. vm_compute. reflexivity. Qed.
+Example split_ex :
+  clean_unit [101; 1; 0; 2] /\
+  H264.split_bitstream (join [(true, [101; 1; 0; 2]); (false, [65; 9])]) = Ok [[101; 1; 0; 2]; [65; 9]].
+Proof. split; [split; [reflexivity | cbv; congruence] | vm_compute; reflexivity]. Qed.
 Example fu_ex : exists frags, H264.packetize_fu_a (101 :: repeat 7 1300) = Ok frags /\ length frags = 2%nat.
 Proof. eexists. split; [vm_compute; reflexivity | reflexivity]. Qed.
 
